@@ -34,7 +34,8 @@ theorem C27_source_shape :
     GenJournal.replayTimeoutReturnsNone = true ∧ GenJournal.startYields = true ∧
     GenJournal.purgeGuard = "expected_key is None and (not self._orphan_purge_done)" ∧
     GenJournal.purgeSkipsEmptyJournal = true ∧ GenJournal.purgeUsesCurrentFid = true ∧ GenJournal.purgeOnce = true ∧
-    GenJournal.recordSites = ["seq=len(self._entries)", "append(key)", "indexAdd=1", "insert(self._run_id,seq_num,key)"] ∧
+    GenJournal.recordSites = ["seq=len(self._entries)", "append(key)", "indexAdd=1", "insert(self._run_id,seq_num,key)",
+      "order:seq-first,insert-last"] ∧
     GenJournal.advanceBody = "self._replay_index += 1" ∧
     GenJournal.nextExpectedBody =
       "if self._entries is None or self._replay_index >= len(self._entries): return None ; return self._entries[self._replay_index]" ∧
